@@ -54,6 +54,7 @@ type Case struct {
 	Cfg   string `json:"cfg,omitempty"`
 	Diff  string `json:"diff,omitempty"`
 	Ops   []Op   `json:"ops,omitempty"`
+	Ops2  []Op   `json:"ops2,omitempty"` // a second stack driven side by side (Kind stack)
 	Auto  bool   `json:"auto,omitempty"`
 	Size  int    `json:"size,omitempty"`
 	Grow  int    `json:"grow,omitempty"`
@@ -462,74 +463,115 @@ func stackCapacity(auto bool, size int) int {
 	return size
 }
 
-func runStackHistory(auto bool, size int, ops []Op) string {
-	s := lua.VerifNewCallFrameStack(auto, size)
-	capacity := stackCapacity(auto, size)
-	var model []int
-	check := func(i int, op Op) string {
-		if s.Sp() != len(model) {
-			return fmt.Sprintf("op %d %+v: Sp()=%d, model %d", i, op, s.Sp(), len(model))
+// stackMachine drives one call-frame stack against a slice model.
+type stackMachine struct {
+	name     string
+	s        *lua.VerifCallFrameStack
+	capacity int
+	model    []int
+}
+
+func (m *stackMachine) check(i int, op Op) string {
+	s, model := m.s, m.model
+	if s.Sp() != len(model) {
+		return fmt.Sprintf("%sop %d %+v: Sp()=%d, model %d", m.name, i, op, s.Sp(), len(model))
+	}
+	if s.IsEmpty() != (len(model) == 0) {
+		return fmt.Sprintf("%sop %d %+v: IsEmpty()=%v with %d frames", m.name, i, op, s.IsEmpty(), len(model))
+	}
+	if s.IsFull() != (len(model) >= m.capacity) {
+		return fmt.Sprintf("%sop %d %+v: IsFull()=%v with %d frames of capacity %d", m.name, i, op, s.IsFull(), len(model), m.capacity)
+	}
+	if len(model) > 0 {
+		idx, tag, okTag, nonNil := s.Last()
+		if !nonNil || !okTag || tag != model[len(model)-1] || idx != len(model)-1 {
+			return fmt.Sprintf("%sop %d %+v: Last() = (idx %d, tag %d, consistent %v, nonNil %v), model (idx %d, tag %d)", m.name, i, op, idx, tag, okTag, nonNil, len(model)-1, model[len(model)-1])
 		}
-		if s.IsEmpty() != (len(model) == 0) {
-			return fmt.Sprintf("op %d %+v: IsEmpty()=%v with %d frames", i, op, s.IsEmpty(), len(model))
+	} else if _, _, _, nonNil := s.Last(); nonNil {
+		return fmt.Sprintf("%sop %d %+v: Last() non-nil on an empty stack", m.name, i, op)
+	}
+	for k := range model {
+		idx, tag, okTag, nonNil := s.At(k)
+		if !nonNil || !okTag || tag != model[k] || idx != k {
+			return fmt.Sprintf("%sop %d %+v: At(%d) = (idx %d, tag %d, consistent %v), model tag %d", m.name, i, op, k, idx, tag, okTag, model[k])
 		}
-		if s.IsFull() != (len(model) >= capacity) {
-			return fmt.Sprintf("op %d %+v: IsFull()=%v with %d frames of capacity %d", i, op, s.IsFull(), len(model), capacity)
+	}
+	return ""
+}
+
+func (m *stackMachine) apply(i int, op Op) string {
+	s := m.s
+	switch op.Op {
+	case "push":
+		if len(m.model) >= m.capacity {
+			return ""
 		}
-		if len(model) > 0 {
-			idx, tag, okTag, nonNil := s.Last()
-			if !nonNil || !okTag || tag != model[len(model)-1] || idx != len(model)-1 {
-				return fmt.Sprintf("op %d %+v: Last() = (idx %d, tag %d, consistent %v, nonNil %v), model (idx %d, tag %d)", i, op, idx, tag, okTag, nonNil, len(model)-1, model[len(model)-1])
+		s.Push(op.A)
+		m.model = append(m.model, op.A)
+	case "pop":
+		if len(m.model) == 0 {
+			return "" // popping an empty stack is outside the interface's contract
+		}
+		idx, tag, okTag, nonNil := s.Pop()
+		want := m.model[len(m.model)-1]
+		m.model = m.model[:len(m.model)-1]
+		if !nonNil || !okTag || tag != want || idx != len(m.model) {
+			return fmt.Sprintf("%sop %d: Pop() = (idx %d, tag %d, consistent %v), model (idx %d, tag %d)", m.name, i, idx, tag, okTag, len(m.model), want)
+		}
+	case "setsp":
+		if len(m.model) == 0 {
+			return ""
+		}
+		k := op.A % (len(m.model) + 1)
+		s.SetSp(k)
+		m.model = m.model[:k]
+	case "retag":
+		if len(m.model) == 0 {
+			return ""
+		}
+		k := op.A % len(m.model)
+		s.Retag(k, op.B)
+		m.model[k] = op.B
+	}
+	return m.check(i, op)
+}
+
+// runStackHistory drives one stack, or two stacks that live side by side (a
+// state and a coroutine: what one releases the other may be handed), each
+// against its own model; after every operation both must still agree.
+func runStackHistory(auto bool, size int, ops, ops2 []Op) string {
+	a := &stackMachine{s: lua.VerifNewCallFrameStack(auto, size), capacity: stackCapacity(auto, size)}
+	if ops2 == nil {
+		for i, op := range ops {
+			if v := a.apply(i, op); v != "" {
+				return v
 			}
-		} else if _, _, _, nonNil := s.Last(); nonNil {
-			return fmt.Sprintf("op %d %+v: Last() non-nil on an empty stack", i, op)
 		}
-		for k := range model {
-			idx, tag, okTag, nonNil := s.At(k)
-			if !nonNil || !okTag || tag != model[k] || idx != k {
-				return fmt.Sprintf("op %d %+v: At(%d) = (idx %d, tag %d, consistent %v), model tag %d", i, op, k, idx, tag, okTag, model[k])
-			}
-		}
+		a.s.FreeAll()
 		return ""
 	}
-	for i, op := range ops {
-		switch op.Op {
-		case "push":
-			if len(model) >= capacity {
-				continue
+	a.name = "stack A "
+	b := &stackMachine{name: "stack B ", s: lua.VerifNewCallFrameStack(auto, size), capacity: a.capacity}
+	for i := 0; i < len(ops) || i < len(ops2); i++ {
+		if i < len(ops) {
+			if v := a.apply(i, ops[i]); v != "" {
+				return v
 			}
-			s.Push(op.A)
-			model = append(model, op.A)
-		case "pop":
-			if len(model) == 0 {
-				continue // popping an empty stack is outside the interface's contract
+			if v := b.check(i, ops[i]); v != "" {
+				return "after an operation on stack A: " + v
 			}
-			idx, tag, okTag, nonNil := s.Pop()
-			want := model[len(model)-1]
-			model = model[:len(model)-1]
-			if !nonNil || !okTag || tag != want || idx != len(model) {
-				return fmt.Sprintf("op %d: Pop() = (idx %d, tag %d, consistent %v), model (idx %d, tag %d)", i, idx, tag, okTag, len(model), want)
-			}
-		case "setsp":
-			if len(model) == 0 {
-				continue
-			}
-			k := op.A % (len(model) + 1)
-			s.SetSp(k)
-			model = model[:k]
-		case "retag":
-			if len(model) == 0 {
-				continue
-			}
-			k := op.A % len(model)
-			s.Retag(k, op.B)
-			model[k] = op.B
 		}
-		if v := check(i, op); v != "" {
-			return v
+		if i < len(ops2) {
+			if v := b.apply(i, ops2[i]); v != "" {
+				return v
+			}
+			if v := a.check(i, ops2[i]); v != "" {
+				return "after an operation on stack B: " + v
+			}
 		}
 	}
-	s.FreeAll()
+	a.s.FreeAll()
+	b.s.FreeAll()
 	return ""
 }
 
@@ -781,6 +823,9 @@ func runComponent(c *fw.Ctx, idx int, count bool, given *Case) {
 		size := []int{1, 2, 7, 8, 9, 15, 16, 17, 24, 40, 41}[r.Intn(11)]
 		auto := r.Intn(2) == 0
 		cs = Case{Kind: "stack", Index: idx, Auto: auto, Size: size, Ops: genStackOps(r, stackCapacity(auto, size))}
+		if r.Intn(3) == 0 {
+			cs.Ops2 = genStackOps(r, stackCapacity(auto, size))
+		}
 	} else {
 		size := []int{1, 4, 16, 33}[r.Intn(4)]
 		grow := []int{1, 7, 32}[r.Intn(3)]
@@ -790,13 +835,16 @@ func runComponent(c *fw.Ctx, idx int, count bool, given *Case) {
 	c.Begin(cs)
 	var v string
 	if cs.Kind == "stack" {
-		v = runStackHistory(cs.Auto, cs.Size, cs.Ops)
+		v = runStackHistory(cs.Auto, cs.Size, cs.Ops, cs.Ops2)
 	} else {
 		v = runRegistryHistory(cs.Size, cs.Grow, cs.Max, cs.Ops)
 	}
 	if count {
 		c.Count("component_histories_"+cs.Kind, 1)
-		c.Count("component_ops", int64(len(cs.Ops)))
+		c.Count("component_ops", int64(len(cs.Ops)+len(cs.Ops2)))
+		if cs.Ops2 != nil {
+			c.Count("component_histories_two_stacks_side_by_side", 1)
+		}
 	}
 	if v != "" {
 		cs.Diff = v
@@ -804,7 +852,7 @@ func runComponent(c *fw.Ctx, idx int, count bool, given *Case) {
 		c.End(false, "")
 		return
 	}
-	b, _ := json.Marshal(cs.Ops)
+	b, _ := json.Marshal([][]Op{cs.Ops, cs.Ops2})
 	c.End(len(cs.Ops) >= 20, fmt.Sprintf("%s/%v/%d/%d/%d/%s", cs.Kind, cs.Auto, cs.Size, cs.Grow, cs.Max, b))
 }
 
